@@ -90,10 +90,10 @@ def e_rpc_error_kept(C, rep, rid):
 
 
 def g_getinfo_is_fresh(C, rep, rid):
-    rep.rule(rid, "every get_info of the ClnRpc implementation asks the node: the returned info is the awaited result of a call_typed made in that call (no cached copy - the periodic poll must see the node's current height)")
+    rep.rule(rid, "every call of the ClnRpc implementation asks the node: what it returns is the awaited result of a call_typed made in that call (no cached copy - the periodic poll must see the node's current height, the listings the current parts, the datastore the current records)")
     F, X = C.F, C.X
-    ms = rpc_impl_methods(F, ("get_info",))
-    rep.anchor(rid, "ClnRpc implementation of get_info", len(ms), 1)
+    ms = rpc_impl_methods(F, ("get_info", "listsendpays", "waitsendpay", "listdatastore", "datastore", "pay"))
+    rep.anchor(rid, "ClnRpc implementation methods", len(ms), 6)
     for k, ty, mn in ms:
         n = 0
         for g in F.group(k):
@@ -105,8 +105,8 @@ def g_getinfo_is_fresh(C, rep, rid):
                 n += 1
                 ok = all(any(y[0] == "call" and y[1] == "cln_rpc::ClnRpc::call_typed" and y[3][0] in {x.cdef for x in F.group(k)} for y in walk(a)) and
                          not any(y[0] == "call" and ("OnceCell" in y[1] or "OnceLock" in y[1] or "Lazy" in y[1]) for y in walk(a)) for a in alts(e))
-                rep.ob(rid, ok, k, "returned info comes from this call's RPC", where=w, how=show(e)[:80], detail="" if ok else "get_info returns %s: not (only) the reply of an RPC made by this call" % show(e)[:120])
-        rep.anchor(rid, "Ok exits of get_info", n, 1, fn=k)
+                rep.ob(rid, ok, k, "%s: the returned reply comes from this call's RPC" % mn, where=w, how=show(e)[:80], detail="" if ok else "%s returns %s: not (only) the reply of an RPC made by this call" % (mn, show(e)[:120]))
+        rep.anchor(rid, "Ok exits of %s" % mn, n, 1, fn=k)
 
 
 def need_provider(C, rep, rid):
@@ -594,6 +594,8 @@ def v_wait_payment(C, rep, pfx):
         rep.ob(rid, True, fn, "calls examined on the wait path", where="", how="%d calls in %d functions" % (ncalls, len(seen)), nontrivial=False)
         # ---- V7: the codes V3 dispatches on arrive as codes
         e_rpc_error_kept(C, rep, pfx + "-V7")
+        # ---- V8: the listings (and every other RPC) show the node's current state
+        g_getinfo_is_fresh(C, rep, pfx + "-V8")
         # ---- V1
         rid = pfx + "-V1"
         rep.rule(rid, "a returned preimage is the payment_preimage of a COMPLETE-listed part or of a successful waitsendpay")
